@@ -71,7 +71,12 @@ fn list_files(root: &Path) -> BTreeMap<String, Vec<u8>> {
     out
 }
 
+/// source file names: the default output names are derived from the stem (name without its last extension)
+const FILE_NAMES: [&str; 5] = ["prog.asm", "prog.v2.asm", "noextension", "my prog.asm", "PROG.ASM"];
+
 struct Spec {
+    /// index into FILE_NAMES
+    name: usize,
     src: usize,
     code: Loc,
     eep: Loc,
@@ -152,7 +157,13 @@ pub fn run(tier: Tier) -> i32 {
                                     continue;
                                 }
                             }
-                            specs.push(Spec { src, code: *code, eep: *eep, verbose, path_kind, sentinels });
+                            specs.push(Spec { name: 0, src, code: *code, eep: *eep, verbose, path_kind, sentinels });
+                            // other source file names where a default output name is in use
+                            if (*code == Loc::Default || *eep == Loc::Default) && !verbose && (tier.thorough() || (path_kind != 1 && sentinels)) {
+                                for name in 1..FILE_NAMES.len() {
+                                    specs.push(Spec { name, src, code: *code, eep: *eep, verbose, path_kind, sentinels });
+                                }
+                            }
                         }
                     }
                 }
@@ -168,8 +179,13 @@ pub fn run(tier: Tier) -> i32 {
         let (sname, stext) = SOURCES[sp.src];
         let src_dir_rel = if sp.path_kind == 2 { "nested/deeper" } else { "" };
         let _ = std::fs::create_dir_all(dir.join(src_dir_rel));
-        let stem = "prog";
-        let src_rel = if sp.path_kind == 2 { format!("nested/deeper/{}.asm", stem) } else { format!("{}.asm", stem) };
+        let fname = FILE_NAMES[sp.name];
+        // the stem: the file name without its last extension
+        let stem = match fname.rfind('.') {
+            Some(i) if i > 0 => &fname[..i],
+            _ => fname,
+        };
+        let src_rel = if sp.path_kind == 2 { format!("nested/deeper/{}", fname) } else { fname.to_string() };
         let src_abs = dir.join(&src_rel);
         if sname != "nonexistent-source" {
             std::fs::write(&src_abs, stext).unwrap_or_else(|e| machinery_fail(&format!("cannot write {:?}: {}", src_abs, e)));
@@ -273,7 +289,8 @@ pub fn run(tier: Tier) -> i32 {
         for (kind, what) in problems {
             *kinds.lock().unwrap().entry(kind.to_string()).or_insert(0) += 1;
             let key = format!("C18/{}/source={}/code-location={:?}/eeprom-location={:?}", kind, sname, sp.code, sp.eep);
-            rep.violation(&key, || format!("{} [verbose={}, source path kind {}, sentinels={}]", what, sp.verbose, sp.path_kind, sp.sentinels), || {
+            let key = if sp.name == 0 { key } else { format!("{}/file-name={}", key, fname.replace(' ', "_")) };
+            rep.violation(&key, || format!("{} [source file {}, verbose={}, source path kind {}, sentinels={}]", what, fname, sp.verbose, sp.path_kind, sp.sentinels), || {
                 json!({"kind": "cli", "source_kind": sname, "source": stext, "argv": format!("avra-rs -s {} {} {} {}", src_rel, code_arg.clone().map(|a| format!("-o {}", a)).unwrap_or_default(), eep_arg.clone().map(|a| format!("-e {}", a)).unwrap_or_default(), if sp.verbose { "-v" } else { "" }),
                        "code_location": format!("{:?}", sp.code), "eeprom_location": format!("{:?}", sp.eep), "exit_status": status,
                        "stdout": String::from_utf8_lossy(&out.stdout), "stderr": String::from_utf8_lossy(&out.stderr), "library_result": reference.to_json()})
@@ -291,7 +308,7 @@ pub fn run(tier: Tier) -> i32 {
     let coverage = cov(json!({
         "evaluations": evals.load(Ordering::Relaxed),
         "distinct_nontrivial": specs.len(),
-        "rule": "11 sources (code only, code+EEPROM, EEPROM only, empty, comments only, with messages, syntax error, range error, .error, missing include, nonexistent source) x code output location in {default, default path occupied by a directory, -o writable, -o missing directory, -o existing directory, -o parent is a file, -o /dev/full} x the same seven for the EEPROM output x -v x source path relative/absolute/nested x pre-existing sentinel files (quick: the full product only where at most one location deviates); each run of the real binary in a fresh directory, compared with build_file in-process. distinct_nontrivial = distinct run specifications",
+        "rule": "5 source file names (plain, two dots, no extension, blank in the name, upper case; names other than the plain one wherever a default output name is in use) x 11 sources (code only, code+EEPROM, EEPROM only, empty, comments only, with messages, syntax error, range error, .error, missing include, nonexistent source) x code output location in {default, default path occupied by a directory, -o writable, -o missing directory, -o existing directory, -o parent is a file, -o /dev/full} x the same seven for the EEPROM output x -v x source path relative/absolute/nested x pre-existing sentinel files (quick: the full product only where at most one location deviates); each run of the real binary in a fresh directory, compared with build_file in-process. distinct_nontrivial = distinct run specifications",
         "exhaustive": tier.thorough(),
         "runs_expected_to_succeed": n_ok.load(Ordering::Relaxed),
         "runs_expected_to_fail": n_fail.load(Ordering::Relaxed),
